@@ -58,6 +58,7 @@ func unitCmd(args []string) {
 	cover := fs.Bool("cover", false, "")
 	assertsOnly := fs.Bool("assertsonly", false, "")
 	groups := fs.String("groups", "", "clause groups to keep (comma separated labels)")
+	assumeG := fs.String("assume", "", "clause groups assumed here, proved elsewhere (comma separated labels)")
 	locks := fs.Bool("locks", false, "track lock state and check guard directives (C20)")
 	utier := fs.String("tier", "quick", "quick|thorough")
 	timeout := fs.Int("timeout", 10000, "ms per query")
@@ -86,7 +87,11 @@ func unitCmd(args []string) {
 		if *groups != "" {
 			gs = strings.Split(*groups, ",")
 		}
-		u, err := e.VerifyFunc(name, vc.UnitOpts{NoPanic: *nopanic, Post: *post, Frame: *frame, Cover: *cover, AssertsOnly: *assertsOnly, Groups: gs})
+		var ags []string
+		if *assumeG != "" {
+			ags = strings.Split(*assumeG, ",")
+		}
+		u, err := e.VerifyFunc(name, vc.UnitOpts{NoPanic: *nopanic, Post: *post, Frame: *frame, Cover: *cover, AssertsOnly: *assertsOnly, Groups: gs, AssumeGroups: ags})
 		if err != nil {
 			fmt.Println("ENGINE-ERROR", err)
 			bad++
@@ -98,7 +103,7 @@ func unitCmd(args []string) {
 		stats := map[string]*vc.SolverStat{}
 		var mu sync.Mutex
 		t0 := time.Now()
-		u.Discharge(context.Background(), vc.RunOpts{TimeoutMs: *timeout, Seed: 0, Tier: *utier, OutDir: "/verif/out"}, stats, &mu)
+		u.Discharge(context.Background(), vc.RunOpts{TimeoutMs: *timeout, Seed: envSeed(), Tier: *utier, OutDir: "/verif/out"}, stats, &mu)
 		for _, ob := range u.Obligations() {
 			if *quiet && ob.OK() {
 				continue
@@ -137,4 +142,10 @@ func unitCmd(args []string) {
 	if bad > 0 {
 		os.Exit(1)
 	}
+}
+
+func envSeed() int {
+	var n int
+	fmt.Sscanf(os.Getenv("VERIF_SEED"), "%d", &n)
+	return n
 }
